@@ -227,3 +227,110 @@ pub fn counter_reachability(k: usize) -> Ast {
     let step = Ast::Q(true, t.clone(), Box::new(Ast::bin(Bin::And, same, inner)));
     Ast::fp("Z", false, Ast::bin(Bin::Or, init, step))
 }
+
+// ---------------------------------------------------------------------------------------
+// wide family: formulas over 33..70 variables whose canonical diagram is known in closed form
+
+fn wide_and(vars: &[NamedSymbol]) -> Rc<BDD<NamedSymbol>> {
+    let mut r = Rc::new(BDD::True);
+    for v in vars.iter().rev() {
+        r = Rc::new(BDD::Choice(r, v.clone(), Rc::new(BDD::False)));
+    }
+    r
+}
+fn wide_or(vars: &[NamedSymbol]) -> Rc<BDD<NamedSymbol>> {
+    let mut r = Rc::new(BDD::False);
+    for v in vars.iter().rev() {
+        r = Rc::new(BDD::Choice(Rc::new(BDD::True), v.clone(), r));
+    }
+    r
+}
+fn wide_xor(vars: &[NamedSymbol]) -> Rc<BDD<NamedSymbol>> {
+    // (odd, even): parity of the remaining variables must be odd / even
+    let mut odd = Rc::new(BDD::False);
+    let mut even = Rc::new(BDD::True);
+    for v in vars.iter().rev() {
+        let o = Rc::new(BDD::Choice(even.clone(), v.clone(), odd.clone()));
+        let e = Rc::new(BDD::Choice(odd.clone(), v.clone(), even.clone()));
+        odd = o;
+        even = e;
+    }
+    odd
+}
+
+/// chains `v0 op v1 op ..` over N variables under exists / forall of variables at positions
+/// around the machine-word boundaries; the expected reduced ordered diagram is built by hand
+pub fn wide_family(ctx: &mut Ctx, tag: &str) {
+    use crate::refl::Bin;
+    let mut idx = 0u64;
+    for n in [33usize, 40, 65, 70] {
+        let names: Vec<String> = (0..n).map(|i| format!("v{i}")).collect();
+        let syms: Vec<NamedSymbol> = names.iter().enumerate().map(|(i, s)| sym(s, i)).collect();
+        let positions: Vec<Vec<usize>> = vec![vec![], vec![0], vec![31], vec![32], vec![33.min(n - 1)], vec![n - 1], vec![31, 32], vec![0, 32], vec![n - 1, 0], vec![32, 0, 31]]
+            .into_iter()
+            .chain(if n > 64 { vec![vec![63], vec![64], vec![0, 64], vec![32, 64], vec![64, 32, 0]] } else { vec![] })
+            .collect();
+        // (and / or only: the engine has no operation cache, so negation or quantification of a
+        // wide parity diagram is exponential by design)
+        for (oi, op) in [Bin::And, Bin::Or].into_iter().enumerate() {
+            let chain = names.iter().map(|s| Ast::var(s)).rev().reduce(|acc, v| Ast::bin(op, v, acc)).unwrap_or(Ast::True);
+            for q in &positions {
+                for ex in [true, false] {
+                    if q.is_empty() && !ex {
+                        continue;
+                    }
+                    idx += 1;
+                    if !ctx.mine(idx) {
+                        continue;
+                    }
+                    let ast = if q.is_empty() { chain.clone() } else { Ast::Q(ex, q.iter().map(|i| names[*i].clone()).collect(), Box::new(chain.clone())) };
+                    let text = refl::pp(&ast, refl::MINIMAL);
+                    let case = json!({"part": "wide", "n": n, "op": oi, "exists": ex, "positions": q});
+                    ctx.begin_case(|| case.clone());
+                    ctx.count("evaluations", 1);
+                    ctx.count("wide_family_formulas", 1);
+                    let key = format!("{tag} {n} variables: {} {:?} # v0 {:?} v1 {:?} .. v{}", if ex { "exists" } else { "forall" }, q.iter().map(|i| &names[*i]).collect::<Vec<_>>(), op, op, n - 1);
+                    ctx.distinct(&key);
+                    let rest: Vec<NamedSymbol> = syms.iter().enumerate().filter(|(i, _)| !q.contains(i)).map(|(_, s)| s.clone()).collect();
+                    let want = match (op, q.is_empty(), ex) {
+                        (Bin::And, true, _) | (Bin::And, false, true) => wide_and(&rest),
+                        (Bin::And, false, false) => Rc::new(BDD::False),
+                        (Bin::Or, true, _) | (Bin::Or, false, false) => wide_or(&rest),
+                        (Bin::Or, false, true) => Rc::new(BDD::True),
+                        (_, true, _) => wide_xor(&rest),
+                        (_, false, true) => Rc::new(BDD::True),
+                        (_, false, false) => Rc::new(BDD::False),
+                    };
+                    let p = match impl_parse_bytes(text.as_bytes(), Some(syms.clone())) {
+                        ImplParse::Ok(p) => p,
+                        ImplParse::Err(e) => {
+                            ctx.violation(key, format!("well-formed formula rejected: {e}"), case);
+                            continue;
+                        }
+                        ImplParse::Panic(m) => {
+                            ctx.violation(key, format!("parser panicked: {m}"), case);
+                            continue;
+                        }
+                    };
+                    match impl_eval(&p) {
+                        Err(m) => ctx.violation(key, format!("evaluation failed: {m}"), case),
+                        Ok(res) => {
+                            if *res != *want {
+                                let mut ls = vec![];
+                                crate::robdd::labels(&res, &mut ls);
+                                ctx.violation(key, format!("the answer is not the expected diagram (it tests {} variables, the expected diagram {})", ls.len(), rest.len() * usize::from(!matches!(want.as_ref(), BDD::True | BDD::False))), case);
+                            } else {
+                                // labels carry the right names
+                                let mut ls = vec![];
+                                crate::robdd::labels(&res, &mut ls);
+                                if ls.iter().any(|l| names.get(l.id).map(|n| n != l.name.as_ref()).unwrap_or(true)) {
+                                    ctx.violation(key, "a node of the answer is labelled with the wrong variable name".into(), case);
+                                }
+                            }
+                        }
+                    }
+                }
+            }
+        }
+    }
+}
